@@ -27,10 +27,10 @@ CLAIMS.update({
             "Every Put/Del sequence up to length 4 (thorough: 6) over a 4-round alphabet followed by every observation incl. all cursor bodies of length <=3 is enumerated for each of 6 back-end configurations; "
             "long random histories with re-puts, deletes, reopen and in-session mutation beyond that. Exhaustive within the stated bound, sampled outside it.",
             "bbolt trusted; postgres back-end unreachable offline.", "DESIGN.md §3 C18"),
-    "C01": ("beaconnet", "stateful property-based testing (rapid state machine) of real beacon handlers on an in-memory network with adversarial partials and lying sync peers; oracle = independent re-verification of every stored/served beacon",
+    "C01": ("beaconnet", "stateful property-based testing (rapid state machine) of real beacon handlers on an in-memory network with adversarial partials and lying sync peers; oracle = independent re-verification of every stored/served beacon; plus rapid-scripted watch streams against the real HTTP handler and concurrent gRPC/HTTP requesters against a real daemon (answer = exactly the requested round, verifying)",
             "Real beacon.Handler instances (2-6 nodes, 5 schemes, 3 back-ends) driven through generated schedules with forged partials (12 kinds) and scripted hostile sync peers (13 kinds); every base-store Put and every streamed beacon "
-            "is re-verified with the harness's own digest and copy of the group key. Sampling of schedules; interleavings inside drand's goroutines are not enumerated.",
-            "BLS/kyber trusted; gRPC/HTTP serving layer covered separately (see notes).", "DESIGN.md §3 C01"),
+            "is re-verified with the harness's own digest and copy of the group key; PublicRand (gRPC) and /public/{r} (HTTP) answers must carry exactly the requested round and verify. Sampling of schedules; interleavings inside drand's goroutines are not enumerated.",
+            "BLS/kyber trusted; the daemon-level request job depends on goroutine scheduling for its races (oracle is sound for every interleaving).", "DESIGN.md Part A (A.1) and §3 C01"),
     "C02": ("beaconnet", "stateful property-based testing (rapid state machine); oracle = invariant over each node's complete Put history + cursor scans + pairwise equality",
             "Same engine as C01 with partitions, queued/reordered/duplicated/dropped delivery, stop/restart (same or fresh store), lying sync peers; after every step the Put history must be append-only and gap-free, "
             "scans hole-free with intact previous-signature links, and all nodes byte-identical per round.",
@@ -83,7 +83,8 @@ CLAIMS["C07"] = ("beaconnet", "property-based testing (rapid) of generated resha
 CLAIMS["C19"] = ("daemon", "enumeration of the (id x hash x endpoint) matrix over rapid-generated chain sets and load/stop/reload histories on a real multi-chain daemon; oracle = reference routing function + cryptographic attribution of every answer",
     "The matrix is enumerated completely at every history point of every generated case; which chain answered is decided by which chain's key verifies the answer.",
     "In-process calls to the daemon's service methods and real HTTP handler; single-member chains.", "DESIGN.md §3 C19")
-ENGINES_EXTRA.append({"name": "daemon", "path": "inpkg/internal__core", "serves_properties": ["C13", "C14", "C15", "C19"], "kind_free_text": "real DrandDaemon started in-package (overlay) from harness-written key/group/share files, fake clock, loopback listeners"})
+ENGINES_EXTRA.append({"name": "httpsrv", "path": "harness/httpsrv", "serves_properties": ["C01"], "kind_free_text": "the real handler/http server registered with a model client whose watch stream the harness scripts"})
+ENGINES_EXTRA.append({"name": "daemon", "path": "inpkg/internal__core", "serves_properties": ["C01", "C13", "C14", "C15", "C19"], "kind_free_text": "real DrandDaemon started in-package (overlay) from harness-written key/group/share files, fake clock, loopback listeners"})
 
 CLAIMS["C14"] = ("daemon", "structure-aware fuzzing with rapid: requests generated from the protobuf descriptors against a real daemon over loopback gRPC/HTTP and against real DKG service objects; oracle = bounded answer + liveness probes afterwards",
     "Requests for every peer-facing RPC are generated by reflection over the message descriptors (absent/zero/typical/hostile per field, every oneof arm) and sent to a real daemon with its interceptors; afterwards probe calls must succeed on every service and the beacon loop must still tick.",
